@@ -156,6 +156,8 @@ class History:
             self._op_rush(*op[1:])
         elif kind == "probeN":
             self._op_probe_batch(op[1])
+        elif kind == "throttle":
+            self._op_throttle(*op[1:])
         elif kind == "inject":
             self._op_inject(*op[1:])
         elif kind == "retain":
@@ -382,6 +384,32 @@ class History:
             fn = getattr(m, "batch", None)
             if fn is not None:
                 self.report(fn(self, s, s2, instrs, s3))
+
+    def _op_throttle(self, ssel: int, csel: int, fsel: int) -> None:
+        """grid co-simulation style: limit a station's plug type to a fraction of its factory rate through the public
+        Station.scale_charger_rate + modify_station_safe API (also in the middle of charging sessions; 0 = switched off)"""
+        from nrel.hive.state.simulation_state import simulation_state_ops as ops
+
+        sids = sorted(self.sim.stations.keys())
+        if not sids:
+            return
+        s = self.sim.stations[sids[ssel % len(sids)]]
+        plugs = sorted(s.state.keys())
+        c = plugs[csel % len(plugs)]
+        factor = [0.0, 0.25, 0.5, 0.5, 1.0][fsel % 5]
+        factory = self.env.chargers.get(c)
+        if factory is None or factory.rate <= 0:
+            return
+        cur = s.state[c].charger.rate
+        res = s.set_charger_rate(c, factory.rate * factor)
+        from returns.result import Failure
+
+        if isinstance(res, Failure):
+            return
+        self.rp = self.rp._replace(s=ops.modify_station_safe(self.sim, res.unwrap()).unwrap())
+        self.stats["plug_rate_changes"] += 1
+        if factor < 1.0:
+            self.flag("plug_throttled")
 
     def _op_inject(self, o_sel: int, d_sel: int) -> None:
         """co-simulation style demand injection: add a request to the current state through the public
